@@ -37,6 +37,25 @@ pub fn payloads() -> Vec<(&'static str, Vec<u8>)> {
 /// texts that must reach the shell verbatim (printed with printf %s)
 pub const VERBATIM: [&str; 12] = ["{name}", "{state_directory}", "{shell_expression}", "{excluded_variables}", "{persist_state}", "$HOME", "a\\b", "it''s", "\"q\"", "{", "}}", "{name}{name}"];
 
+/// shell expressions of awkward shapes (trailing line continuation, comment, multi-line quotes, here-doc, compound commands):
+/// (expression, expected stdout, expected exit code)
+pub fn raw_expressions() -> Vec<(&'static str, &'static str, i32)> {
+    vec![
+        ("echo foo \\", "foo\n", 0),
+        ("printf '%s\\n' one \\\n  two \\", "one\ntwo\n", 0),
+        ("echo a # trailing comment", "a\n", 0),
+        ("echo 'multi\nline quote'", "multi\nline quote\n", 0),
+        ("cat <<EOF\nheredoc $((1+1))\nEOF", "heredoc 2\n", 0),
+        ("if true; then\n  echo yes\nfi", "yes\n", 0),
+        ("echo $((2+3)); false", "5\n", 1),
+        ("f() { echo in-f; }; f", "in-f\n", 0),
+        ("echo x |\n  tr x y", "y\n", 0),
+        ("echo 'tab\there'", "tab\there\n", 0),
+        ("true &&\n  echo chained", "chained\n", 0),
+        ("echo no-newline-at-end; (exit 9)", "no-newline-at-end\n", 9),
+    ]
+}
+
 #[derive(Clone, Debug, Serialize, Deserialize, Hash)]
 pub struct Step {
     pub payload: usize,
@@ -51,6 +70,8 @@ pub enum IoCase {
     Verbatim { text: usize, exec: Exec },
     /// `exit c` (not a subshell) in the per-process executor
     PlainExit { code: i32 },
+    /// an awkwardly shaped expression, preceded by `(exit 4)` and followed by `echo next` (attribution of output and exit codes)
+    Raw { idx: usize, exec: Exec },
     /// script mode: the last of `n` test cases prints a line imitating scrut's divider for itself and then exits with 5
     FakeDivider { n: usize },
     /// big payload on both streams at once (bytes per stream)
@@ -200,6 +221,9 @@ impl Engine for VcIo {
                     v.push(IoCase::Steps { steps: w.iter().map(|i| small[*i].clone()).collect(), output_stream: 0, keep_crlf: false, strip_ansi: false, exec });
                 }
             }
+            for idx in 0..raw_expressions().len() {
+                v.push(IoCase::Raw { idx, exec });
+            }
             v.push(IoCase::Big { bytes: 64 * 1024, exec });
             v.push(IoCase::Big { bytes: 2 * 1024 * 1024, exec });
         }
@@ -220,7 +244,7 @@ impl Engine for VcIo {
     }
     fn bound(&self, tier: Tier) -> String {
         format!(
-            "both executors (per-process StatefulExecutor+BashRunner, single-script BashScriptExecutor) with /bin/bash: every payload of {} x stream {{out, err, out+err, err+out}} x exit codes {} x output_stream {{stdout,stderr,combined}} x keep_crlf x strip_ansi (settings varied where they can transform the payload); all pairs{} of test cases over a reduced alphabet (per-test attribution); {} texts that must reach the shell verbatim; plain `exit c`; 64 KiB and 2 MiB on both streams at once; replace_crlf on all byte strings <= {} over {{CR, LF, a}} and on 10^3..10^6 CR LF pairs in a child process",
+            "both executors (per-process StatefulExecutor+BashRunner, single-script BashScriptExecutor) with /bin/bash: every payload of {} x stream {{out, err, out+err, err+out}} x exit codes {} x output_stream {{stdout,stderr,combined}} x keep_crlf x strip_ansi (settings varied where they can transform the payload); all pairs{} of test cases over a reduced alphabet (per-test attribution); {} texts that must reach the shell verbatim; 12 awkwardly shaped expressions (trailing line continuation, comment, multi-line quote, here-doc, compound commands) between two other test cases; plain `exit c`; 64 KiB and 2 MiB on both streams at once; replace_crlf on all byte strings <= {} over {{CR, LF, a}} and on 10^3..10^6 CR LF pairs in a child process",
             payloads().len(),
             if tier == Tier::Quick { "{0,3,255}" } else { "{0,1,2,3,81,127,255}" },
             if tier == Tier::Quick { "" } else { " and a triple family" },
@@ -331,6 +355,25 @@ impl Engine for VcIo {
                     Err(p) => fail(&mut res, "no-crash", "outputs".into(), format!("panic: {p}"), &[]),
                 }
             }
+            IoCase::Raw { idx, exec } => {
+                let scratch = Scratch::new();
+                res.nontrivial.push(("C13", key));
+                let (expr, want_out, want_code) = raw_expressions()[*idx];
+                let cfg = if *exec == Exec::Script { TestCaseConfig { output_stream: Some(OutputStreamControl::Stdout), keep_crlf: Some(true), ..TestCaseConfig::default_cram() } } else { TestCaseConfig::default_markdown() };
+                let mk = |e: &str| TestCase { title: "t".into(), shell_expression: e.into(), expectations: vec![], exit_code: None, line_number: 1, config: cfg.clone() };
+                let tcs = vec![mk("(exit 4)"), mk(expr), mk("echo next")];
+                match guard(|| execute(*exec, &tcs, DocumentConfig::default_markdown(), &scratch)) {
+                    Ok(Ok(outs)) if outs.len() == 3 => {
+                        let got: Vec<(Vec<u8>, ExitStatus)> = outs.iter().map(|o| ((&o.stdout).into(), o.exit_code.clone())).collect();
+                        let want: Vec<(Vec<u8>, ExitStatus)> = vec![(vec![], ExitStatus::Code(4)), (want_out.as_bytes().to_vec(), ExitStatus::Code(want_code)), (b"next\n".to_vec(), ExitStatus::Code(0))];
+                        res.outcome.push(("C13", hash64(&("raw", exec, got == want))));
+                        if got != want {
+                            fail(&mut res, "expression-runs-verbatim-and-is-attributed", format!("`{expr}` between `(exit 4)` and `echo next`: {:?}", want.iter().map(|(o, c)| (String::from_utf8_lossy(o).to_string(), c.clone())).collect::<Vec<_>>()), format!("{:?}", got.iter().map(|(o, c)| (String::from_utf8_lossy(o).to_string(), c.clone())).collect::<Vec<_>>()), &[]);
+                        }
+                    }
+                    other => fail(&mut res, "execution-succeeds", format!("three outputs for `{expr}`"), format!("{:?}", other.map(|r| r.map(|o| o.len()).map_err(|e| e.to_string()))), &[]),
+                }
+            }
             IoCase::PlainExit { code } => {
                 let scratch = Scratch::new();
                 let tc = TestCase { title: "t".into(), shell_expression: format!("echo before; exit {code}; echo after"), expectations: vec![], exit_code: None, line_number: 1, config: TestCaseConfig::default_markdown() };
@@ -436,6 +479,7 @@ impl Engine for VcIo {
             IoCase::Steps { steps, output_stream, keep_crlf, strip_ansi, .. } => steps.len() * 1000 + steps.iter().map(|s| s.payload * 10 + s.stream as usize + s.code as usize).sum::<usize>() + *output_stream as usize + *keep_crlf as usize + *strip_ansi as usize,
             IoCase::Verbatim { text, .. } => *text,
             IoCase::PlainExit { .. } => 1,
+            IoCase::Raw { idx, .. } => 2 + idx,
             IoCase::FakeDivider { n } => *n,
             IoCase::Big { bytes, .. } => *bytes,
             IoCase::Crlf { word } => word.len(),
